@@ -25,6 +25,8 @@ EXPECT = {
     "R-EFF.static": [("mutable-static", "mutable-static:calls")],
     "R-EFF.closure": [("rand", "ctl_rand"), ("getenv", "ctl_env")],
     "R-LIFE": [("dangling-reference", "ctl_dangling")],
+    "R-LIFE.inval": [("reference-into-grown-vector", "ctl_invalidated")],
+    "R-EFF.frozen": [("static-from-argument", "ctl_frozen")],
 }
 
 _cache = {}
@@ -52,6 +54,8 @@ def _run_all():
         r_own.commit_last(c, [u])
         r_own.call_closure(c, [u])
         r_own.lifetimes(c, [u], scope=lambda f: "vt_control" in f.qn)
+        r_own.invalidation(c, [u], scope=lambda f: "vt_control" in f.qn)
+        r_own.frozen_statics(c, [u], scope=lambda f: "vt_control" in f.qn)
     finally:
         C.LIB_EXTRA[:] = saved
     _cache["v"] = c.violations
